@@ -824,3 +824,316 @@ def r_varint(ctx, rep):
             rep.violation("R-VARINT", key, loc(fn.raw), "%s: %s" % (name.rsplit("::", 1)[-1], worst))
         else:
             rep.holds("R-VARINT", key, loc(fn.raw), "%d paths: at most %d bytes, 7-bit groups shifted by %s, continuation bit 0x80" % (len(paths), maxb, want))
+
+
+# ----------------------------------------------------------------------------------------------
+# R-HDRWIN: the eager readers window the stored range at (header row, first column) .. end
+
+def _pattern_sources(fn):
+    """lid -> ('ctor', variant) for bindings directly under a tuple-struct pattern of a match arm, or
+    ('init', expr) pairing sub-patterns with the corresponding sub-expression of a tuple initialiser"""
+    out = {}
+
+    def pair(pat, init):
+        pat_k = pat.get("k")
+        if pat_k == "Binding":
+            out[pat["lid"]] = ("init", init)
+            if pat.get("sub"):
+                pair(pat["sub"], init)
+        elif pat_k == "Tuple" and init is not None and unwrap(init).get("k") == "Tup" and len(unwrap(init)["es"]) == len(pat["pats"]):
+            for p, e in zip(pat["pats"], unwrap(init)["es"]):
+                pair(p, e)
+        elif pat_k == "TupleStruct" and len(pat.get("pats", [])) == 1 and (pat.get("res", {}).get("def") or "").endswith("Option::Some"):
+            # Some(x) against an Option-valued initialiser: x is "the payload of init"
+            pair(pat["pats"][0], ("some-of", init))
+        elif pat_k in ("Tuple", "TupleStruct"):
+            for p in pat.get("pats", []):
+                pair(p, None)
+    for n in walk(fn.body):
+        k = n.get("k")
+        if k in ("Let", "LetExpr") and n.get("init") is not None:
+            pair(n["pat"], n["init"])
+        elif k == "Match":
+            for a in n["arms"]:
+                p = a["pat"]
+                if p.get("k") == "TupleStruct":
+                    v = norm(p.get("res", {}).get("ctor_of") or p.get("res", {}).get("def"))
+                    for sp in p.get("pats", []):
+                        if sp.get("k") == "Binding":
+                            out[sp["lid"]] = ("ctor", v, n["scrut"])
+    return out
+
+
+def r_hdrwin(ctx, rep):
+    """C08: with header_row = Row(n) the eager readers (xls, ods) return the stored sheet range windowed to
+    (n, first column) ..= (last row, last column).  Decided on the call of Range::range in the Row(n) branch of
+    worksheet_range: its first argument is the pair (n bound by the HeaderRow::Row pattern, field 1 of the payload of
+    `.start()`), its second argument the payload of `.end()` of the same range."""
+    F = ctx.facts("default")
+    for ty in ("xls::Xls", "ods::Ods"):
+        fn = next((f for f in F.fns if f.impl_self == ty and f.impl_trait == "Reader" and f.name.endswith("::worksheet_range")), None)
+        key = "%s::worksheet_range|R-HDRWIN" % ty
+        if fn is None:
+            rep.anchor_missing("R-HDRWIN", "Reader::worksheet_range for %s" % ty)
+            continue
+        src = _pattern_sources(fn)
+        calls = [c for c in walk_k(fn.body, "MethodCall") if c["name"] == "range" and (callee(c) or "").endswith("Range::range") and len(c.get("args", [])) == 2]
+        if not calls:
+            rep.anchor_missing("R-HDRWIN", "Range::range call in %s" % fn.name)
+            continue
+        for i, c in enumerate(calls):
+            k = key if i == 0 else "%s#%d" % (key, i + 1)
+            a0, a1 = unwrap(c["args"][0]), unwrap(c["args"][1])
+            probs = []
+
+            def is_payload_of(e, meth):
+                pl = path_local(e)
+                s_ = src.get(pl[1]) if pl else None
+                if not s_ or s_[0] != "init" or not isinstance(s_[1], tuple) or s_[1][0] != "some-of":
+                    return False
+                init = unwrap(s_[1][1]) if s_[1][1] is not None else None
+                return bool(init) and init.get("k") == "MethodCall" and init.get("name") == meth
+            if a0.get("k") != "Tup" or len(a0["es"]) != 2:
+                probs.append("the window start is not a (row, column) pair")
+            else:
+                r0, c0 = unwrap(a0["es"][0]), unwrap(a0["es"][1])
+                pl = path_local(r0)
+                s_ = src.get(pl[1]) if pl else None
+                if not s_ or s_[0] != "ctor" or not (s_[1] or "").endswith("HeaderRow::Row"):
+                    probs.append("the window's first row is not the n of HeaderRow::Row(n)")
+                if not (c0.get("k") == "Field" and c0.get("name") == "1" and is_payload_of(c0["e"], "start")):
+                    probs.append("the window's first column is not `.1` of the stored range's start()")
+            if not is_payload_of(a1, "end"):
+                probs.append("the window's end is not the stored range's end()")
+            if probs:
+                rep.violation("R-HDRWIN", k, loc(c), "%s: %s: cells at or below the header row would be dropped or shifted" % (fn.name, "; ".join(probs)))
+            else:
+                rep.holds("R-HDRWIN", k, loc(c), "range((n, start.1), end) with start/end of the stored sheet range")
+
+
+# ----------------------------------------------------------------------------------------------
+# R-LENGUARD: a length guard agrees with the error it raises
+
+def r_lenguard(ctx, rep):
+    """C02 (every well-formed record reads back): a guard of the form `if buf.len() < K { return Err(Len { expected: E,
+    found: buf.len() }) }` states its own contract -- a buffer of `expected` bytes is acceptable.  The guard must
+    therefore be exactly `len < expected` (same constant, strict comparison): `<=`, or a larger constant, rejects
+    the smallest well-formed record (a one-character string result, a one-cell MULRK)."""
+    n = 0
+    F = ctx.facts("default")
+    for fn in F.fns_in("src/xls.rs", "src/xlsb/mod.rs", "src/xlsb/cells_reader.rs"):
+        cnt = 0
+        for i in walk_k(fn.body, "If"):
+            structs = [x for x in walk_k(i["then"], "Struct") if (norm(x.get("res", {}).get("ctor_of") or x.get("res", {}).get("def")) or "").endswith("Error::Len")]
+            if not structs:
+                continue
+            st = structs[0]
+            fields = {f["name"]: f["e"] for f in st.get("fields", [])}
+            exp = lit_value(fields.get("expected")) if "expected" in fields else None
+            cond = unwrap(i["cond"])
+            if not isinstance(exp, int) or cond.get("k") != "Binary" or cond.get("op") not in ("<", "<=", ">", ">=", "!=", "=="):
+                continue
+            l, r = unwrap(cond["l"]), unwrap(cond["r"])
+            lenside, const, op = None, None, cond["op"]
+            if l.get("k") == "MethodCall" and l.get("name") == "len" and isinstance(lit_value(r), int):
+                lenside, const = l, lit_value(r)
+            elif r.get("k") == "MethodCall" and r.get("name") == "len" and isinstance(lit_value(l), int):
+                lenside, const = r, lit_value(l)
+                op = {"<": ">", ">": "<", "<=": ">=", ">=": "<="}.get(op, op)
+            if lenside is None:
+                continue
+            cnt += 1
+            n += 1
+            key = "%s|R-LENGUARD|#%d" % (fn.name, cnt)
+            # rejected lengths under the guard, for the comparison `len op const`
+            if op == "<" and const == exp:
+                rep.holds("R-LENGUARD", key, loc(i), "rejects exactly len < %d" % exp)
+            elif op in ("<", "<=") and (const < exp or (op == "<=" and const < exp)):
+                rep.holds("R-LENGUARD", key, loc(i), "rejects only lengths below the stated minimum %d" % exp, nontrivial=False)
+            elif op in ("!=",) and const == exp:
+                rep.holds("R-LENGUARD", key, loc(i), "exact-length record of %d bytes" % exp)
+            else:
+                rep.violation("R-LENGUARD", key, loc(i), "the guard `len %s %d` raises Len { expected: %d }: it rejects a buffer of exactly the %d bytes the error message calls sufficient, i.e. the smallest well-formed record of this kind" % (op, const, exp, exp))
+    rep.floor("R-LENGUARD", 8, "length guards raising XlsError::Len / XlsbError in the record decoders")
+
+
+def r_xlsbcell(ctx, rep):
+    """C10: [MS-XLSB] 2.5.9 Cell: column (4 bytes), iStyleRef (24 bits), fPhShow + reserved (8 bits).  The style that
+    decides date typing is the 24-bit field only: cell_format must build its index from bytes 4, 5 and 6 of the
+    record and nothing else (byte 7 carries the show-phonetic flag that East-Asian Excel editions set)."""
+    F = ctx.facts("default")
+    fn = F.fn("xlsb::cell_format")
+    key = "xlsb::cell_format|R-XLSBCELL"
+    if fn is None:
+        rep.anchor_missing("R-XLSBCELL", "xlsb::cell_format")
+        return
+    idx = set()
+    other = []
+    for ix in walk_k(fn.body, "Index"):
+        t = (peel(ix["e"]).get("ty") or "")
+        if "[u8]" not in t:
+            continue
+        v = lit_value(ix["idx"])
+        if isinstance(v, int):
+            idx.add(v)
+        else:
+            other.append(ix)
+    masked = any(b["op"] == "&" and lit_value(b["r"]) == 0x00FFFFFF for b in walk_k(fn.body, "Binary"))
+    reads = [c for c in walk_k(fn.body, "Call") if (callee(c) or "").startswith("utils::read_")]
+    if idx == {4, 5, 6} and not other and not reads:
+        rep.holds("R-XLSBCELL", key, loc(fn.raw), "iStyleRef is assembled from bytes 4, 5, 6 of the cell record")
+    elif (reads or other) and masked and not idx - {4, 5, 6, 7}:
+        rep.holds("R-XLSBCELL", key, loc(fn.raw), "iStyleRef is read wide and masked to 24 bits")
+    else:
+        rep.violation("R-XLSBCELL", key, loc(fn.raw), "cell_format builds the style index from bytes %s%s of the cell record instead of the 24-bit iStyleRef (bytes 4..7 exclusive): with the show-phonetic flag in byte 7 set the lookup misses and a date cell is returned as a plain number" % (sorted(idx), " and a wide read" if reads or other else ""))
+
+
+# ----------------------------------------------------------------------------------------------
+# R-ODSWIDTH: every row written into the cropped ods grid has the width of the used rectangle
+
+class _L:
+    """linear expression: const + sum coef*atom"""
+    def __init__(self, c=0, t=None):
+        self.c, self.t = c, dict(t or {})
+
+    def __add__(self, o):
+        t = dict(self.t)
+        for k, v in o.t.items():
+            t[k] = t.get(k, 0) + v
+        return _L(self.c + o.c, {k: v for k, v in t.items() if v})
+
+    def __sub__(self, o):
+        return self + _L(-o.c, {k: -v for k, v in o.t.items()})
+
+    def subst(self, atom, e):
+        if atom not in self.t:
+            return self
+        k = self.t[atom]
+        rest = _L(self.c, {a: v for a, v in self.t.items() if a != atom})
+        return rest + _L(k * e.c, {a: k * v for a, v in e.t.items()})
+
+    def __eq__(self, o):
+        return self.c == o.c and self.t == o.t
+
+    def __repr__(self):
+        s = " + ".join(("%s" % a if v == 1 else "%d*%s" % (v, a)) for a, v in sorted(self.t.items()))
+        return (s + (" + %d" % self.c if self.c else "")) if s else str(self.c)
+
+
+def _lin_named(fn, e, src, depth=0):
+    e = unwrap(e)
+    if not isinstance(e, dict) or depth > 6:
+        return None
+    k = e.get("k")
+    if k == "Lit" and isinstance(lit_value(e), int) and not isinstance(lit_value(e), bool):
+        return _L(lit_value(e))
+    if k == "Cast":
+        return _lin_named(fn, e["e"], src, depth + 1)
+    if k == "Path" and path_local(e):
+        return _L(0, {path_local(e)[0]: 1})
+    if k == "MethodCall" and e.get("name") == "len":
+        return _slice_len(fn, e["recv"], src, depth + 1)
+    if k == "Binary" and e.get("op") in ("+", "-"):
+        a, b = _lin_named(fn, e["l"], src, depth + 1), _lin_named(fn, e["r"], src, depth + 1)
+        if a is None or b is None:
+            return None
+        return a + b if e["op"] == "+" else a - b
+    return None
+
+
+def _slice_len(fn, e, src, depth=0):
+    """length of a slice-valued expression as a linear expression over named locals and len(<local>) atoms"""
+    e = peel(e)
+    if not isinstance(e, dict) or depth > 6:
+        return None
+    k = e.get("k")
+    if k == "Path" and path_local(e):
+        nm, lid = path_local(e)
+        s_ = src.get(lid)
+        if s_ and s_[0] == "init" and not isinstance(s_[1], tuple) and s_[1] is not None:
+            init = unwrap(s_[1])
+            if init.get("k") == "Call" and (callee(init) or "").endswith("vec::from_elem") and len(init.get("args", [])) == 2:
+                return _lin_named(fn, init["args"][1], src, depth + 1)
+            if peel(init).get("k") == "Index" and (peel(peel(init)["idx"]).get("k") in ("Struct", "Call")):
+                # a re-slice bound to a (possibly shadowing) local: its length is that of the slice expression
+                # unless the range is built from window bounds (`&cells[w[0]..w[1]]`), which stays an atom
+                r = _slice_len(fn, init, src, depth + 1)
+                if r is not None:
+                    return r
+        return _L(0, {"len(%s)" % nm: 1})
+    if k == "Index":
+        base = _slice_len(fn, e["e"], src, depth + 1)
+        idx = unwrap(e["idx"])
+        if base is None:
+            return None
+        if idx.get("k") == "Struct":
+            f = {x["name"]: x["e"] for x in idx.get("fields", [])}
+            st = _lin_named(fn, f["start"], src, depth + 1) if "start" in f else _L(0)
+            en = _lin_named(fn, f["end"], src, depth + 1) if "end" in f else base
+            if st is None or en is None:
+                return None
+            return en - st
+        if idx.get("k") == "Call" and (callee(idx) or "").endswith("RangeInclusive::new") and len(idx["args"]) == 2:
+            st, en = _lin_named(fn, idx["args"][0], src, depth + 1), _lin_named(fn, idx["args"][1], src, depth + 1)
+            if st is None or en is None:
+                return None
+            return en + _L(1) - st
+    return None
+
+
+def r_odswidth(ctx, rep):
+    """C04: ods::get_range rebuilds the sheet as a dense grid of width col_max + 1 - col_min.  Every group of
+    `extend_from_slice` calls that emits one grid row must add exactly that many cells, whatever the length of the
+    stored row: the pushed lengths are evaluated as linear expressions over col_min, col_max and len(row) (with
+    len(row) = col_max + 1 in the `Equal` arm of the length comparison) and compared with the width."""
+    F = ctx.facts("default")
+    fn = F.fn("ods::get_range")
+    if fn is None:
+        rep.anchor_missing("R-ODSWIDTH", "ods::get_range")
+        return
+    src = _pattern_sources(fn)
+    W = _L(1, {"col_max": 1, "col_min": -1})
+    groups = []    # (label, where, [calls], substitution or None)
+    seen_calls = set()
+    # the arms of `row.len().cmp(&(col_max + 1))`
+    for m in walk_k(fn.body, "Match"):
+        sc = unwrap(m["scrut"])
+        if sc.get("k") == "MethodCall" and sc.get("name") == "cmp":
+            lhs = _lin_named(fn, sc["recv"], src)
+            rhs = _lin_named(fn, peel(sc["args"][0]), src) if sc.get("args") else None
+            for a in m["arms"]:
+                v = norm(a["pat"].get("e", {}).get("res", {}).get("def") or a["pat"].get("res", {}).get("def") or "") if isinstance(a.get("pat"), dict) else ""
+                calls = [c for c in walk_k(a["body"], "MethodCall") if c["name"] == "extend_from_slice"]
+                for c in calls:
+                    seen_calls.add(id(c))
+                sub = None
+                if v.endswith("Ordering::Equal") and lhs is not None and rhs is not None and len(lhs.t) == 1 and lhs.c == 0:
+                    sub = (list(lhs.t)[0], rhs)
+                groups.append((v.rsplit("::", 1)[-1] or "arm", a, calls, sub))
+    for c in walk_k(fn.body, "MethodCall"):
+        if c["name"] == "extend_from_slice" and id(c) not in seen_calls:
+            groups.append(("flush", c, [c], None))
+    for label, where, calls, sub in groups:
+        key = "ods::get_range|R-ODSWIDTH|%s" % label
+        if any(i["key"] == key for i in rep.instances):
+            key += "#%d" % (1 + sum(1 for i in rep.instances if i["key"].startswith(key)))
+        tot = _L(0)
+        bad = None
+        for c in calls:
+            ln = _slice_len(fn, c["args"][0], src)
+            if ln is None:
+                bad = c
+                break
+            tot = tot + ln
+        if bad is not None:
+            rep.violation("R-ODSWIDTH", key, loc(bad), "cannot evaluate how many cells this extend_from_slice adds")
+            continue
+        if sub:
+            tot = tot.subst(sub[0], sub[1])
+        if not calls:
+            rep.violation("R-ODSWIDTH", key, loc(where), "the `%s` case emits no cells for the row" % label)
+        elif tot == W:
+            rep.holds("R-ODSWIDTH", key, loc(where), "emits %r cells = the width of the used rectangle" % tot)
+        else:
+            rep.violation("R-ODSWIDTH", key, loc(where), "the `%s` case emits %r cells per grid row, the used rectangle is %r wide: every later row of the range is displaced" % (label, tot, W))
+    rep.floor("R-ODSWIDTH", 4, "flush of interior empty rows + the three arms of the row-length comparison")
